@@ -22,7 +22,12 @@ MANIFEST = dict(
          "that both line readers (add_line incl. blank trimming and the **/ and /* rewriting; git's reader) put every "
          "grammar line into the executable class. Not covered by the grammar theorem (class hypothesis or known "
          "finding): negated classes / classes admitting '/', braces, escaped backslash or slash, a leading escaped ! "
-         "or #, tabs. Known findings refuted by witness. Tie to "
+         "or #, tabs. Known findings refuted by witness. Bracket expressions in full (complement mark ! or ^, a "
+         "leading ] or -, a trailing -): parse_class yields the documented token in any parser state "
+         "(parse_class_documented), glob level (parse_documented_syntax_classes), meaning (class_glob_meaning); every "
+         "class token the parser produces is non-empty with ascending ranges (parsed_class_tokens_wellformed), a line "
+         "that is not accepted takes nothing away from its file and accepted lines cannot poison the file's regex set "
+         "(unparsable_line_skipped, accepted_lines_tokens_wf). Tie to "
          "the code: three-way, git ls-files vs rg --files and ignore::WalkBuilder and "
          "Gitignore::matched_path_or_any_parents vs the model; extracted GitSem vs real git.",
     note="trusted: git 2.39 as executable specification; Coq kernel, extraction, OCaml driver, Rust harness; C12's trusted "
@@ -373,13 +378,14 @@ _seen = {}
 _pending = []
 
 
-def viol(ctx, what, rep, nfi=False):
-    """at most 3 replays per kind; the message names the ignore files and the first differing path; reports without
-    a failing input are held back and dropped when the run produced a concrete violation"""
+def viol(ctx, what, rep, nfi=False, detail=""):
+    """at most 3 replays per kind (`detail` is shown but does not make a new kind); the message names the ignore
+    files and the first differing path; reports without a failing input are held back and dropped when the run
+    produced a concrete violation"""
     _seen[what] = _seen.get(what, 0) + 1
     if _seen[what] > 3:
         return
-    wit = ""
+    wit = detail
     if "repo" in rep:
         wit = " [ignore files=%r" % (rep["repo"]["ignores"],)
         if "git" in rep and "rg" in rep:
@@ -698,8 +704,8 @@ def check_repos(ctx, repos):
             # 1b. every line is a line of the documented grammar: rg has nothing to complain about (a line it cannot
             # digest is reported on stderr; when the glob SET of a file cannot be built the whole file is dropped)
             if grammar and K_BRACE not in feats and rerr.strip():
-                viol(ctx, "rg reports an error for ignore files whose lines are all lines of the documented grammar "
-                          "[stderr=%r]" % rerr.decode("latin1")[:160], rep, nfi=(gfiles == rfiles))
+                viol(ctx, "rg reports an error for ignore files whose lines are all lines of the documented grammar",
+                     rep, nfi=(gfiles == rfiles), detail=" [stderr=%r]" % rerr.decode("latin1")[:160])
             if not m_ok or c in ("PANIC", "MISSING"):
                 viol(ctx, "model/harness failure on a repository case: model=%s code=%s" % (m[:30], c[:30]), rep)
                 continue
@@ -929,6 +935,114 @@ def check_line_class(ctx, cases):
                  dict(kind=404, ci=ci, text=l.decode("latin1"), line=line, model=m), nfi=True)
 
 
+# ----------------------------------------------------------------------------- kind 405: documented bracket expressions
+
+FIRST_SINGLES = b"]-a^!b+.z_"
+LATER_SINGLES = b"abcxz+.09^!_,"
+FIRST_RANGES = [(93, 97), (93, 122), (97, 99), (97, 122), (48, 57), (43, 46), (65, 90), (94, 96), (33, 43)]
+LATER_RANGES = [(97, 99), (48, 57), (43, 46), (65, 90), (120, 122), (33, 43)]
+PROBES = b"]-^!abcdxyz+.,0159AMZ[_`~*?# "
+
+
+def gen_dclass(rng):
+    """an abstract bracket expression of Spec/GlobClassSyntax.v (mark, members in the order written, trailing '-');
+    the TEXT is produced by the Coq rendering, not here.  No member or range covers '/' or a backslash."""
+    mark = rng.choice([0, 1, 2, 2])
+    members = []
+    if rng.random() >= 0.08:
+        while True:
+            first = (lambda c: (c, c))(rng.choice(FIRST_SINGLES)) if rng.random() < 0.6 else rng.choice(FIRST_RANGES)
+            if mark != 0 or first[0] not in (33, 94):
+                break
+        members.append(first)
+        for _ in range(rng.choice([0, 0, 1, 1, 2, 3])):
+            members.append((lambda c: (c, c))(rng.choice(LATER_SINGLES)) if rng.random() < 0.6 else rng.choice(LATER_RANGES))
+    dash = True if not members else rng.random() < 0.35
+    return (mark, members, dash)
+
+
+FIXED_DCLASSES = [(2, [(93, 93)], True), (2, [(93, 93)], False), (1, [(93, 93)], False), (0, [(93, 93)], False),
+                  (2, [(93, 93), (97, 97)], False), (1, [(93, 93), (97, 97)], False), (0, [(93, 93)], True),
+                  (0, [(93, 97)], False), (2, [(93, 97)], False), (0, [], True), (2, [], True), (1, [], True),
+                  (0, [(45, 45), (97, 97)], False), (2, [(45, 45), (97, 97)], False), (0, [(97, 97)], True),
+                  (2, [(97, 99)], True), (2, [(94, 94)], False), (1, [(33, 33)], False), (2, [(33, 33)], False),
+                  (0, [(97, 97), (94, 94)], False), (2, [(93, 93), (97, 99)], True)]
+
+
+def check_dclasses(ctx, classes):
+    """kind 405, four readings of one documented bracket expression on the names n<probe>m: the documentation
+    (Spec dclass_admits), the gitignore model (add_line + re_spec), the code (GitignoreBuilder add_line + build +
+    matched) and real git (check-ignore) — all must agree; the code must neither reject the line nor fail to build
+    the file's glob set."""
+    def probes_of(members):
+        ps = set(PROBES)
+        for lo, hi in members:
+            ps |= {lo - 1, lo, hi, hi + 1}
+        return bytes(sorted(x for x in ps if 32 <= x < 127 and x not in (47, 92)))
+    cases = [(mark, members, dash, probes_of(members)) for mark, members, dash in classes]
+    mlines = [vlist([str(mark), vlist([vlist([str(lo), str(hi)]) for lo, hi in members]), "1" if dash else "0", vbytes(pr)])
+              for mark, members, dash, pr in cases]
+    mo = vlib.model(405, mlines)
+    texts = []
+    for m in mo:
+        ok = not (m in ("MISSING", "STACKOVERFLOW", "PANIC") or m.startswith("PARSEFAIL"))
+        texts.append(bytes(parse_val(m)[1]) if ok else b"")
+    co = vlib.code(405, [vlist([vbytes(t), vbytes(c[3])]) for t, c in zip(texts, cases)])
+    base = tempfile.mkdtemp(dir=vlib.CACHE, prefix="c04cls-")
+    st = ctx.cov.setdefault("documented_classes", dict(cases=0, complemented=0, leading_bracket=0, leading_dash=0, trailing_dash=0))
+    try:
+        root = os.path.join(base, "r")
+        materialize(dict(tree={}, ignores={}, ci=False), root)
+        for (mark, members, dash, pr), ml, m, text, c in zip(cases, mlines, mo, texts, co):
+            rep = dict(kind=405, cls=[mark, [list(x) for x in members], dash], line=text.decode("latin1"), model=m, code=c)
+            show_line = " [ignore line=%r]" % text.decode("latin1")
+            if not text or not m.startswith("(1 "):
+                viol(ctx, "kind 405: the generated bracket expression is not a documented class for the model "
+                          "(dclass_ok false or model failure) model=%s" % m[:60], rep, nfi=True)
+                continue
+            st["cases"] += 1
+            st["complemented"] += mark != 0
+            st["leading_bracket"] += bool(members) and members[0][0] == 93
+            st["leading_dash"] += (bool(members) and members[0][0] == 45) or not members
+            st["trailing_dash"] += bool(dash and members)
+            ctx.note_case(ml, True)
+            mv = parse_val(m)
+            spec = [bool(x) for x in mv[2]]
+            model = [x == 1 for x in mv[3]]
+            open(os.path.join(os.fsencode(root), b".gitignore"), "wb").write(text + b"\n")
+            names = [b"n" + bytes([b]) + b"m" for b in pr]
+            gres = run_check_ignore(dict(ci=False), root, names)
+            if sorted(gres) != sorted(names):
+                viol(ctx, "kind 405: git check-ignore did not answer for every probe" + show_line, rep, nfi=True)
+                continue
+            git = [gres[n][0] for n in names]
+            if c in ("PANIC", "MISSING") or c.startswith("PARSEFAIL") or not c.startswith("(0 "):
+                why = {"x01": "GitignoreBuilder::add_line rejects the line", "(1)": "GitignoreBuilder::add_line rejects the line",
+                       "x02": "the glob set of the ignore file does not build (every line of the file is lost)",
+                       "(2)": "the glob set of the ignore file does not build (every line of the file is lost)"}.get(c, "harness failure " + c[:30])
+                viol(ctx, "a documented bracket expression in an ignore line: %s; git reads it as a class" % why, rep,
+                     detail="%s git-ignored=%r" % (show_line, [n.decode("latin1") for n, g in zip(names, git) if g][:4]))
+                continue
+            code = [x == 1 for x in parse_val(c)[1]]
+            def first_diff(a, b):
+                return [names[i].decode("latin1") for i in range(len(names)) if a[i] != b[i]][:3]
+            if code != git:
+                viol(ctx, "rg and git read a documented bracket expression differently", rep,
+                     detail="%s names=%r (git ignores: %r)" % (show_line, first_diff(code, git),
+                                                               [git[i] for i in range(len(names)) if code[i] != git[i]][:3]))
+            if spec != git:
+                viol(ctx, "Spec/GlobClassSyntax.v dclass_admits disagrees with real git", rep, nfi=True,
+                     detail="%s names=%r" % (show_line, first_diff(spec, git)))
+            if model != code:
+                viol(ctx, "gitignore model and Gitignore::matched disagree on a documented bracket expression", rep,
+                     nfi=(code == git), detail="%s names=%r" % (show_line, first_diff(model, code)))
+            if spec != model:
+                viol(ctx, "model and documented meaning of a bracket expression disagree (theorem class_glob_meaning "
+                          "no longer describes the model)", rep, nfi=True, detail="%s names=%r" % (show_line, first_diff(spec, model)))
+    finally:
+        shutil.rmtree(base, ignore_errors=True)
+
+
 def check_add_line(ctx, cases):
     lines = [vlist(["1" if ci else "0", vbytes(l)]) for ci, l in cases]
     mo = vlib.model(403, lines)
@@ -1045,6 +1159,7 @@ def run(ctx):
     al = [(False, b"n" + c + b"m") for c in EDGE_POS + EDGE_NEG + EDGE_BAD] + [(True, b"[^]-]"), (True, b"[]-]*")] + al
     check_add_line(ctx, al)
     check_line_class(ctx, al + [(r["ci"], l) for r in CORPUS + repos for ls in r["ignores"].values() for l in ls])
+    check_dclasses(ctx, FIXED_DCLASSES + [gen_dclass(rng) for _ in range(ctx.count(60))])
     flush_pending(ctx)
     ctx.assumptions += [
         "git 2.39 (ls-files --others --exclude-standard, check-ignore) is the executable specification",
@@ -1058,6 +1173,8 @@ def replay(ctx, data):
         check_add_line(ctx, [(r["ci"], r["text"].encode("latin1"))])
     elif r.get("kind") == "nested":
         check_nested(ctx, [unshow_nested(r["case"])])
+    elif r.get("kind") == 405:
+        check_dclasses(ctx, [(r["cls"][0], [tuple(x) for x in r["cls"][1]], r["cls"][2])])
     elif r.get("kind") == 404:
         check_line_class(ctx, [(r["ci"], r["text"].encode("latin1"))])
     elif "repo" in r:
